@@ -148,14 +148,17 @@ Dot(b, v)        == SumN(Len(b), LAMBDA r : b[r] * v[r])
 \* ---------------------------------------------------------------------------
 \* C01 clauses (relational: phrased on what was returned, against the definitions)
 \* BilinearRepresents: entrywise equality with Bil, which by bilinearity is  v^T A u = a(u_h, v_h)  for all u, v
-BilinearRepresents(A, F, Bu, Bv, env) ==
-  LET loc == BilLocal(F, Bu, Bv, env)  hv == Hits(Bv)  hu == Hits(Bu)
-      pos == MatPos(A)
+BilinearRepresentsL(A, loc, hv, hu, Bu, Bv) ==
+  LET pos == MatPos(A)
       nodup == Cardinality(pos) = Len(A.trip)
   IN /\ A.shape = <<Bv.N, Bu.N>>
      /\ IF nodup THEN \A n \in DOMAIN A.trip : A.trip[n][3] = BilEntry(loc, hv, hu, A.trip[n][1], A.trip[n][2])
                  ELSE \A x \in pos : MatAt(A, x[1], x[2]) = BilEntry(loc, hv, hu, x[1], x[2])
      /\ \A x \in BilCandidates(Bu, Bv) \ pos : BilEntry(loc, hv, hu, x[1], x[2]) = 0
+BilinearRepresents(A, F, Bu, Bv, env) == BilinearRepresentsL(A, BilLocal(F, Bu, Bv, env), Hits(Bv), Hits(Bu), Bu, Bv)
+\* two reported matrices are the same matrix (duplicates summed, explicit zeros irrelevant)
+SameMatrix(A1, A2) == /\ A1.shape = A2.shape
+                      /\ \A x \in MatPos(A1) \cup MatPos(A2) : MatAt(A1, x[1], x[2]) = MatAt(A2, x[1], x[2])
 \* RowsAreTest: rows index test functions, columns trial functions (shape and sparsity pattern)
 RowsAreTest(A, Bu, Bv) ==
   /\ A.shape = <<Bv.N, Bu.N>>
